@@ -144,8 +144,10 @@ ASSUMPTIONS = [
     "'targets in their domain' = reals where the predefined function is defined: log on y>0, log(1+x)/log1p on y>-1, "
     "exp/exp(x)-1/expm1 everywhere; the float round trip is checked on |y| <= 5 within 64 ulp * (1+|y|) * (1+|f(y)|)",
     "'all label sets' = one kind of label per array: integers, floats (NaN allowed for the transformer; scikit-learn "
-    "classifiers reject NaN targets), strings; `closest=False` (the nearest-neighbour fallback used for regression "
-    "targets is not part of the statement and not modelled)",
+    "classifiers reject NaN targets), strings; `closest=False` and `closest=True` (the nearest-neighbour fallback; its search "
+    "`_find_closest` is a parameter of the model, and the real code is compared with the model only on arrays of "
+    "fitted labels: on an unseen label the installed numpy refuses float()/int() of the (1, 1) array the search "
+    "returns, so the code raises TypeError there, outside the round trip the statement quantifies over)",
     "'classes_[j] is the label of probability column j' is tested on the real code as classes_[argmax proba] == "
     "predict on rows whose maximum is unique, and column j == inner column of the code of classes_[j]",
     "'label-permutation-equivariant learners': DecisionTreeClassifier (exact agreement on rows without leaf ties) and "
@@ -401,7 +403,7 @@ def make_recording_regressor():
     return RecordingRegressor
 
 
-def run_perm_case(kind, ys, seed, q, use_global):
+def run_perm_case(kind, ys, seed, q, use_global, closest=False):
     """fit / transform / get_fct_inv / transform on the real code; canonical strings + the recorded lin"""
     import numpy
     from mlinsights.mlmodel.sklearn_transform_inv_fct import PermutationReciprocalTransformer as P
@@ -410,9 +412,9 @@ def run_perm_case(kind, ys, seed, q, use_global):
     X = numpy.arange(2 * len(q), dtype=float).reshape(len(q), 2)
     if use_global:
         numpy.random.seed(seed)
-        p = P()
+        p = P(closest=closest)
     else:
-        p = P(random_state=seed)
+        p = P(random_state=seed, closest=closest)
     with PermRecorder() as rec:
         p.fit(None, y)
     lin = rec.calls[0] if len(rec.calls) == 1 else None
@@ -440,9 +442,9 @@ def run_perm_case(kind, ys, seed, q, use_global):
             "fit_returns": None}
 
 
-def perm_line(kind, ys, lin, q):
+def perm_line(kind, ys, lin, q, closest=False):
     k = "F" if kind == "float" else "P"
-    return "perm %s %s %s %s" % (k, jl(lab_tok(v) for v in make_array(kind, ys)), jl(str(v) for v in lin),
+    return "%s %s %s %s %s" % ("permc" if closest else "perm", k, jl(lab_tok(v) for v in make_array(kind, ys)), jl(str(v) for v in lin),
                                  jl(lab_tok(v) for v in make_array(kind, q)))
 
 
@@ -605,15 +607,19 @@ def correspond(ctx):
         else:
             q = [ys[rng.randrange(len(ys))] for _ in range(rng.randint(1, 6))]
         use_global = (t % 7 == 3)
-        res = run_perm_case(kind, ys, seed, q, use_global)
+        # closest=True on arrays of fitted labels (model: transformPlainC / transformLabelsC with the driver's
+        # search).  Unseen labels are not sent with closest=True: `_find_closest` converts a (1, 1) array with
+        # float()/int(), which numpy >= 2.3 refuses (TypeError), so the real code has no output to compare there.
+        closest = (mode != 3 and (t // 3) % 2 == 1)
+        res = run_perm_case(kind, ys, seed, q, use_global, closest=closest)
         lin = res["lin"]
         if lin is None:
             corr.disagree("perm-recording", {"kind": kind, "y": [str(v) for v in ys]}, "one permutation call",
                           "no or several numpy permutation calls")
             continue
-        lines.append(perm_line(kind, ys, lin, q))
+        lines.append(perm_line(kind, ys, lin, q, closest=closest))
         inp = {"kind": kind, "y": [lab_tok(v) for v in make_array(kind, ys)], "random_state": seed, "lin": lin,
-               "q": [lab_tok(v) for v in make_array(kind, q)], "global_rng": use_global}
+               "q": [lab_tok(v) for v in make_array(kind, q)], "global_rng": use_global, "closest": closest}
         expect.append(("perm", inp, res["impl"]))
         ident = lin == sorted(lin)
         corr.case(("perm", kind, tuple(inp["y"]), tuple(lin), tuple(inp["q"])), nontrivial=(not ident and k >= 2),
@@ -627,6 +633,7 @@ def correspond(ctx):
             corr.hit("perm:unseen-label")
         if use_global:
             corr.hit("perm:random_state=None")
+        corr.hit("perm:closest=True" if closest else "perm:closest=False")
         if not res["info"]["x_same"]:
             corr.disagree("perm-features", inp, "X returned as given", "X replaced")
 
@@ -774,13 +781,13 @@ def check_regressor(name, ys):
     return bad
 
 
-def check_perm(kind, ys, seed, q, use_global=False):
+def check_perm(kind, ys, seed, q, use_global=False, closest=False):
     """transform then get_fct_inv().transform gives q back; NaN stays NaN; X untouched"""
     import numpy
-    res = run_perm_case(kind, ys, seed, q, use_global)
+    res = run_perm_case(kind, ys, seed, q, use_global, closest=closest)
     bad = []
     qa = make_array(kind, q)
-    tag = "PermutationReciprocalTransformer[%s labels]" % kind
+    tag = "PermutationReciprocalTransformer[%s labels%s]" % (kind, ", closest=True" if closest else "")
     if res["back"] is None:
         bad.append((tag + ":roundtrip-raises", "transform / get_fct_inv().transform raises on labels of the fitted set",
                     {"error": res["info"]["err"] or res["impl"].split("|")[1], "transformed": res["impl"].split("|")[1]},
@@ -1137,9 +1144,10 @@ def search(ctx, hints):
             ys = [tok_val(kind, t) for t in inp["y"]]
             if h.get("op") == "perm":
                 q = [tok_val(kind, t) for t in inp["q"]]
-                bad, _ = check_perm(kind, ys, inp["random_state"], q, inp.get("global_rng", False))
+                bad, _ = check_perm(kind, ys, inp["random_state"], q, inp.get("global_rng", False),
+                                    closest=inp.get("closest", False))
                 report(bad, {"kind": "perm", "labels": kind, "y": ys, "random_state": inp["random_state"], "q": q,
-                             "global_rng": inp.get("global_rng", False)})
+                             "global_rng": inp.get("global_rng", False), "closest": inp.get("closest", False)})
             elif h.get("op", "").startswith("clf"):
                 bad, _ = check_clf(kind, inp["clf"], inp["X"], ys, inp["random_state"], inp["Xq"])
                 report(bad, {"kind": "clf", "labels": kind, "clf": inp["clf"], "X": inp["X"], "y": ys,
@@ -1182,11 +1190,12 @@ def search(ctx, hints):
         labs, ys = gen_targets(rng, kind, k, k + rng.randint(0, k + 3), with_nan=(t % 2 == 1))
         seed = pick_seed(rng, k, lambda lin: lin != sorted(lin))
         q = list(ys) if t % 3 else [v for v in ys if rng.random() < 0.7] or list(ys)
-        bad, res = check_perm(kind, ys, seed, q, use_global=(t % 9 == 4))
+        cl = (t // 3) % 2 == 1
+        bad, res = check_perm(kind, ys, seed, q, use_global=(t % 9 == 4), closest=cl)
         evals += 1
         nontriv.add(("perm", kind, tuple(lab_tok(v) for v in make_array(kind, ys)), tuple(res["lin"] or [])))
         report(bad, {"kind": "perm", "labels": kind, "y": ys, "random_state": seed, "q": q,
-                     "global_rng": (t % 9 == 4)})
+                     "global_rng": (t % 9 == 4), "closest": cl})
         if t < 2:
             samples.append({"kind": "perm", "labels": kind, "y": [lab_tok(v) for v in make_array(kind, ys)],
                             "lin": res["lin"]})
@@ -1253,7 +1262,8 @@ def replay(ctx, item):
     elif kind == "perm":
         ys = [float(v) for v in inp["y"]] if inp["labels"] == "float" else inp["y"]
         q = [float(v) for v in inp["q"]] if inp["labels"] == "float" else inp["q"]
-        bad, _ = check_perm(inp["labels"], ys, inp["random_state"], q, inp.get("global_rng", False))
+        bad, _ = check_perm(inp["labels"], ys, inp["random_state"], q, inp.get("global_rng", False),
+                            closest=inp.get("closest", False))
     elif kind == "clf":
         ys = [float(v) for v in inp["y"]] if inp["labels"] == "float" else inp["y"]
         bad, _ = check_clf(inp["labels"], inp["clf"], inp["X"], ys, inp["random_state"], inp["Xq"])
